@@ -74,7 +74,48 @@ def rule_mut(repo, tier):
                             node=node, construct='%s <- %s' % (target, norm_construct(node, f.node) if isinstance(node, ast.AST) else ''),
                             detail={'chain': list(chain)}))
     res.notes.append('public API functions examined: %d' % n_api)
+    # SHARED: in-place writes into storage that outlives the call (memoised results, module-level tensors), in any function
+    n_sh = 0
+    for f in repo.all_functions():
+        s = S[f.fq]
+        for lab, (node, why, chain) in s.shared.items():
+            n_sh += 1
+            res.add(Finding('C06.SHARED', f, 'in-place write into %s: %s%s - later calls observe the modified object, results depend on call '
+                            'history' % (lab, why, (' via ' + ' -> '.join(chain)) if chain else ''), node=node if isinstance(node, ast.AST) else None,
+                            construct='shared <- %s' % lab))
+    # positive fixture for the expected-zero rule
+    fx = '''
+import functools, torch
+@functools.lru_cache(maxsize=None)
+def _eye(n):
+    return torch.eye(n)
+def bad(X):
+    A = _eye(3).expand(X.shape[:-1] + (3, 3)).contiguous()
+    A[..., :2, :2] = 0
+    return A
+'''
+    try:
+        from ..core import ModuleInfo
+        import types
+        fr = _fixture_repo(repo, fx)
+        S2, _ = effects.compute_summaries(fr, max_rounds=3, only_module='pypose._fixture')
+        if not S2['pypose._fixture:bad'].shared:
+            raise AnalysisError('C06.SHARED: positive fixture (write into a memoised tensor) not recognised')
+    except KeyError:
+        raise AnalysisError('C06.SHARED: positive fixture could not be analysed')
+    res.notes.append('shared-storage writes found: %d (fixture recognised)' % n_sh)
     return res
+
+
+def _fixture_repo(repo, text):
+    from ..core import ModuleInfo
+    import copy
+    fr = copy.copy(repo)
+    fr.modules = dict(repo.modules)
+    fr.modules['pypose._fixture'] = ModuleInfo('pypose._fixture', 'pypose/_fixture.py', text, False)
+    fr._by_method = None
+    fr._mro_cache = {}
+    return fr
 
 
 
